@@ -93,6 +93,11 @@ def specCheck (prop : String) (op res : List String) : String :=
           "escaped value is not a literal segment or does not decode to the value"
       | none => "fail unparsable result"
     | _, _ => "fail unparsable result"
+  | "C08", ["e2e_pair", _, _] =>
+    -- the observation must not depend on how request bytes, reads and writes are segmented
+    match (" ".intercalate res).splitOn " ## " with
+    | [a, b] => verdict (a == b) "observation depends on the segmentation of reads/writes"
+    | _ => "fail unparsable result"
   | prop, ["e2e", h] => specE2E prop h res
   | prop, ["e2e_fresh", h] => specE2E prop h res
   | _, _ => "nospec"
